@@ -258,7 +258,7 @@ impl Mesh {
 struct MeshNearCheck<'a> {
     this_mesh: &'a Mesh,
     ref_mesh: &'a Mesh,
-    checked: HashMap<u32, bool>,
+    checked: HashMap<u32, Option<Option<UnitVec3>>>,
     distance_tol: f64,
     planar_tol: Option<f64>,
     angle_tol: Option<f64>,
@@ -282,52 +282,58 @@ impl<'a> MeshNearCheck<'a> {
         }
     }
 
-    fn store_and_return(&mut self, vertex_index: u32, result: bool) -> bool {
+    /// Everything about a vertex which does not depend on the face asking: whether it projects
+    /// onto the reference mesh within the distance and planar tolerances and, if so, the normal of
+    /// the reference triangle it lands on (`None` when that triangle is degenerate).
+    fn vertex_check(&mut self, vertex_index: u32) -> Option<Option<UnitVec3>> {
+        if let Some(&checked) = self.checked.get(&vertex_index) {
+            return checked;
+        }
+
+        let p = self.this_mesh.vertices()[vertex_index as usize];
+        let result = if let Some((prj, ri, _loc)) =
+            self.ref_mesh.project_with_max_dist(&p, self.distance_tol)
+        {
+            let rn = self.ref_mesh.shape.triangle(ri).normal();
+            match (self.planar_tol, rn) {
+                (None, _) => Some(rn),
+                (Some(planar_tol), Some(n)) => {
+                    if SurfacePoint3::new(prj.point, n).planar_distance(&p) <= planar_tol {
+                        Some(rn)
+                    } else {
+                        None
+                    }
+                }
+                (Some(_), None) => None,
+            }
+        } else {
+            None
+        };
+
         self.checked.insert(vertex_index, result);
         result
     }
 
     fn near_check(&mut self, vertex_index: u32, face_normal: Option<UnitVec3>) -> bool {
-        if let Some(&checked) = self.checked.get(&vertex_index) {
-            checked
-        } else {
-            let p = self.this_mesh.vertices()[vertex_index as usize];
+        let Some(rn) = self.vertex_check(vertex_index) else {
+            return false;
+        };
 
-            let is_ok = if let Some((prj, ri, _loc)) =
-                self.ref_mesh.project_with_max_dist(&p, self.distance_tol)
-            {
-                if self.planar_tol.is_none() && self.angle_tol.is_none() {
-                    true
-                } else if let Some(rn) = self.ref_mesh.shape.triangle(ri).normal() {
-                    // We need to get the normal of the reference triangle
-                    let rsp = SurfacePoint3::new(prj.point, rn);
+        if self.planar_tol.is_none() && self.angle_tol.is_none() {
+            return true;
+        }
 
-                    let check_planar = if let Some(planar_tol) = self.planar_tol {
-                        rsp.planar_distance(&p) <= planar_tol
-                    } else {
-                        true
-                    };
+        // The optional tolerances need the normal of the reference triangle
+        let Some(rn) = rn else {
+            return false;
+        };
 
-                    let check_angle = if let Some(angle_tol) = self.angle_tol {
-                        if let Some(face_normal) = face_normal {
-                            face_normal.angle(&rn) <= angle_tol
-                        } else {
-                            // No face normal, so we can't check the angle, assume it's bad?
-                            false
-                        }
-                    } else {
-                        true
-                    };
-
-                    check_planar && check_angle
-                } else {
-                    false
-                }
-            } else {
-                false
-            };
-
-            self.store_and_return(vertex_index, is_ok)
+        // The angle test depends on the face which is asking, so it is never cached
+        match (self.angle_tol, face_normal) {
+            (None, _) => true,
+            (Some(angle_tol), Some(face_normal)) => face_normal.angle(&rn) <= angle_tol,
+            // No face normal, so we can't check the angle, assume it's bad?
+            (Some(_), None) => false,
         }
     }
 }
